@@ -56,6 +56,12 @@ inductive Val where
   | inst (sid : Nat) (fields : List Val)
   deriving Inhabited
 
+/-- `EvaluatedIndexOrSlice`: one step of an index path -/
+inductive Ix where
+  | idx (v : Val)
+  | slice (lo hi : Option Val)
+  deriving Inhabited
+
 /-! ### exact reading of numbers (`project_to_reals`, nnum.rs ~598) -/
 
 /-- an extended real: what an `NNumReal` denotes -/
@@ -203,11 +209,21 @@ def truthy : Val → Bool
   | .type _ => true
   | .inst _ _ => true
 
+/-- exact value of an int / rational operand (the arithmetic patterns are modelled on exact
+numbers; float and complex operands are outside the model, see `assumptions`) -/
+def exactNum : Val → Option Rat
+  | .int n => some n
+  | .rat q => some q
+  | _ => none
+
 /-- The predicate table behind `satisfying(f)` types.  The differential run uses these six source
 functions; every theorem treats `predEval` as an arbitrary pure function of the value (it is never
 unfolded in `Theorems/C12.lean`).
   0 `\x -> x > 0`   1 `\x -> len(x) == 2`   2 `\x -> 1`   3 `\x -> 0`   4 `\x -> x is int`
-  5 `\x -> throw "no"`   6 `\x -> x is list and len(x) > 0 and x[0] is int`   (anything else: raises) -/
+  5 `\x -> throw "no"`   6 `\x -> x is list and len(x) > 0 and x[0] is int`   7 `\x -> x is list and sum(x) < 10`
+  8 `\x -> x is list and all(x map \e -> e is int)`
+  9 `\x -> x is list and len(x) > 0 and x[0] is list and len(x[0]) > 0 and x[0][0] is int`
+  (anything else: raises) -/
 def predEval (p : Nat) (v : Val) : Out Bool :=
   match p with
   | 0 => match numReals v with
@@ -231,6 +247,17 @@ def predEval (p : Nat) (v : Val) : Out Bool :=
   | 4 => .ok (match v with | .int _ => true | _ => false)
   | 5 => .throw
   | 6 => .ok (match v with | .list (.int _ :: _) => true | _ => false)
+  | 7 => match v with
+         | .list xs =>
+           -- `sum` adds the elements with `+` (raises on a non-number; exact numbers in the run)
+           (match xs.mapM exactNum with
+            | some qs => .ok (decide (qs.foldl (· + ·) 0 < 10))
+            | none => .throw)
+         | _ => .ok false
+  | 8 => .ok (match v with
+         | .list xs => xs.all fun x => match x with | .int _ => true | _ => false
+         | _ => false)
+  | 9 => .ok (match v with | .list (.list (.int _ :: _) :: _) => true | _ => false)
   | _ => .throw
 
 /-- `is_type` (eval.rs ~3256), post-F2: with the `Rational` and `StructInstance` arms. -/
@@ -282,7 +309,7 @@ inductive Bi where
 expressions are constants. -/
 inductive Pat where
   | underscore
-  | ident (x : Nat) (ixs : List Val)
+  | ident (x : Nat) (ixs : List Ix)
   | anno (p : Pat) (t : Option Val)
   | withDefault (p : Pat) (d : Val)
   | seq (ps : List Pat) (delimited : Bool)
@@ -365,24 +392,72 @@ def listSet {α} : List α → Nat → α → List α
   | _ :: xs, 0, a => a :: xs
   | x :: xs, n + 1, a => x :: listSet xs n a
 
-/-- `set_index lhs ixs value every` restricted to `Index` paths through lists and dicts.
-`value = none` is the LHS-dropping call of `drop_lhs` (stores null). -/
-def setIndex : Val → List Val → Option Val → Out Val
-  | _, [], value => .ok (value.getD .null)
-  | lhs, i :: rest, value =>
+/-- `clamped_pythonic_index` -/
+def clampIndex (len : Nat) (i : Int) : Nat :=
+  if i ≥ 0 then min i.toNat len else (i + len).toNat
+
+/-- `pythonic_slice_obj`: the half-open range a slice denotes; `none` = a bound is not an integer -/
+def pySlice (len : Nat) (lo hi : Option Val) : Option (Nat × Nat) :=
+  let b (x : Option Val) (dflt : Nat) : Option Nat :=
+    match x with
+    | none => some dflt
+    | some (.int n) => some (clampIndex len n)
+    | some _ => none
+  match b lo 0, b hi len with
+  | some a, some c => some (a, c)
+  | _, _ => none
+
+/-- apply `f` to the elements at positions `[lo, hi)` (counting from `i`), left to right, stopping
+at the first failure -/
+def mapRange (f : Val → Out Val) : List Val → Nat → Nat → Nat → Out (List Val)
+  | [], _, _, _ => .ok []
+  | x :: xs, i, lo, hi =>
+    if lo ≤ i ∧ i < hi then
+      match f x with
+      | .ok y => (mapRange f xs (i + 1) lo hi).map (y :: ·)
+      | .throw => .throw
+      | .panic => .panic
+    else (mapRange f xs (i + 1) lo hi).map (x :: ·)
+
+/-- `set_index lhs ixs value every` through lists, dicts, vectors, bytes and (ASCII) strings.
+`value = none` is the LHS-dropping call of `drop_lhs` (stores null); a slice step is accepted only
+under `every` (every element of the range is set). -/
+def setIndex : Val → List Ix → Option Val → Bool → Out Val
+  | _, [], value, _ => .ok (value.getD .null)
+  | lhs, .slice lo hi :: rest, value, every =>
+    match lhs with
+    | .list xs =>
+      if every then
+        match pySlice xs.length lo hi with
+        | some (a, b) => (mapRange (fun x => setIndex x rest value every) xs 0 a b).map Val.list
+        | none => .throw
+      else .throw        -- "can't assign to a list slice (only every-assignment …)"
+    | .stream xs =>      -- forced to a list first
+      if every then
+        match pySlice xs.length lo hi with
+        | some (a, b) => (mapRange (fun x => setIndex x rest value every) xs 0 a b).map Val.list
+        | none => .throw
+      else .throw
+    | .dict ks vs =>
+      -- `(Seq::Dict(v, _), Slice(None, None)) if rest.is_empty()`: every value is set
+      match lo, hi, rest with
+      | none, none, [] => if every then .ok (.dict ks (vs.map fun _ => value.getD .null)) else .throw
+      | _, _, _ => .throw
+    | _ => .throw
+  | lhs, .idx i :: rest, value, every =>
     match lhs with
     | .list xs =>
       match pyIndex xs.length i with
       | some k =>
         match xs[k]? with
-        | some old => (setIndex old rest value).map fun nv => .list (listSet xs k nv)
+        | some old => (setIndex old rest value every).map fun nv => .list (listSet xs k nv)
         | none => .throw
       | none => .throw
     | .stream xs =>     -- "hack": a stream is forced to a list before indexing into it
       match pyIndex xs.length i with
       | some k =>
         match xs[k]? with
-        | some old => (setIndex old rest value).map fun nv => .list (listSet xs k nv)
+        | some old => (setIndex old rest value every).map fun nv => .list (listSet xs k nv)
         | none => .throw
       | none => .throw
     | .dict ks vs =>
@@ -395,7 +470,7 @@ def setIndex : Val → List Val → Option Val → Out Val
         match dictFind i ks with
         | some k =>
           match vs[k]? with
-          | some old => (setIndex old rest value).map fun nv => .dict ks (listSet vs k nv)
+          | some old => (setIndex old rest value every).map fun nv => .dict ks (listSet vs k nv)
           | none => .throw
         | none => .throw
     | .vector xs =>
@@ -435,9 +510,17 @@ def setIndex : Val → List Val → Option Val → Out Val
     | _ => .throw
 
 /-- `index_or_slice` for reading along an `Index` path (lists and dicts) -/
-def getIndex : Val → List Val → Out Val
+def getIndex : Val → List Ix → Out Val
   | v, [] => .ok v
-  | v, i :: rest =>
+  | v, .slice lo hi :: rest =>
+    -- `slice_seq` (lists; other kinds are read only by statements that raise afterwards anyway)
+    match v with
+    | .list xs =>
+      (match pySlice xs.length lo hi with
+       | some (a, b) => getIndex (.list ((xs.drop a).take (b - a))) rest
+       | none => .throw)
+    | _ => .throw
+  | v, .idx i :: rest =>
     match v with
     | .list xs =>
       match pyIndex xs.length i with
@@ -483,7 +566,7 @@ def getIndex : Val → List Val → Out Val
 
 /-- `assign_respecting_type` (eval.rs ~2503): eager check when the index path is empty, late check
 (after the write) otherwise -/
-def assignRespectingType (e : Env) (x : Nat) (ixs : List Val) (rhs : Val) : Env × Out Unit :=
+def assignRespectingType (e : Env) (x : Nat) (ixs : List Ix) (rhs : Val) (every : Bool := false) : Env × Out Unit :=
   match e.get? x with
   | none => (e, .throw)
   | some c =>
@@ -495,7 +578,7 @@ def assignRespectingType (e : Env) (x : Nat) (ixs : List Val) (rhs : Val) : Env 
       | .throw => (e, .throw)
       | .panic => (e, .panic)
     | _ :: _ =>
-      match setIndex c.val ixs (some rhs) with
+      match setIndex c.val ixs (some rhs) every with
       | .ok nv =>
         let e' := e.set x nv
         match isType c.ty nv with
@@ -507,13 +590,6 @@ def assignRespectingType (e : Env) (x : Nat) (ixs : List Val) (rhs : Val) : Env 
       | .panic => (e, .panic)
 
 /-! ## Destructuring builtins (lib.rs ~118-605) and the constructors they invert -/
-
-/-- exact value of an int / rational operand (the arithmetic patterns are modelled on exact
-numbers; float and complex operands are outside the model, see `assumptions`) -/
-def exactNum : Val → Option Rat
-  | .int n => some n
-  | .rat q => some q
-  | _ => none
 
 def isRatVal : Val → Bool
   | .rat _ => true
